@@ -81,12 +81,16 @@ def tok(rnd, s):
 
 def render_tree(t, rnd, ind=""):
     out = []
+    late = []
     for nm, ty, v in t:
         if rnd.random() < 0.15:
             out.append(ind + rnd.choice(["// comment", "/* c-style */", "/* multi\n   line */", "// trailing * / chars"]))
         name = tok(rnd, nm)
         term = rnd.choice(["", "", ";", " ;"])
         if ty == STR:
+            if rnd.random() < 0.04 and nm not in ("t", "flag", "num"):
+                # the key is given twice: the later value is the one the file gives
+                out.append("%s%s %s%s" % (ind, name, tok(rnd, v + "-earlier"), term))
             out.append("%s%s%s%s%s" % (ind, name, rnd.choice([" ", "  ", "\t"]), tok(rnd, v), term))
         elif ty == LIST:
             if len(v) >= 2 and rnd.random() < 0.3:
@@ -98,9 +102,25 @@ def render_tree(t, rnd, ind=""):
         elif ty == INADDR:
             out.append("%s%s %s %s%s" % (ind, name, tok(rnd, v[0]), tok(rnd, v[1]), term))
         else:
+            if len(v) >= 2 and rnd.random() < 0.15:
+                # the object is written in two blocks of the same name (the second one possibly after other members
+                # of the parent): they denote one object with the members of both
+                cut = rnd.randrange(1, len(v))
+                out.append("%s%s {" % (ind, name))
+                out.append(render_tree(v[:cut], rnd, ind + "  "))
+                out.append("%s}%s" % (ind, term))
+                name2 = tok(rnd, nm.swapcase()) if rnd.random() < 0.25 else name
+                rest = ["%s%s {" % (ind, name2), render_tree(v[cut:], rnd, ind + "  "), "%s}%s" % (ind, term)]
+                if rnd.random() < 0.5:
+                    late.append(rest)
+                else:
+                    out += rest
+                continue
             out.append("%s%s {" % (ind, name))
             out.append(render_tree(v, rnd, ind + "  "))
             out.append("%s}%s" % (ind, term))
+    for rest in late:
+        out += rest
     return "\n".join(x for x in out if x != "")
 
 
